@@ -210,7 +210,8 @@ def _const_eval(t):
 def min_boundary(rep, F, rule='R-TABLE'):
     """the negative scale-0 arm of to_i64 / to_i128: the unsigned magnitude d is reinterpreted as a signed integer only
     under d < 2^(W-1); d == 2^(W-1) gives MIN; anything larger gives None.  A reinterpreting cast of the magnitude that is
-    not under that comparison (or wrapping arithmetic) maps out-of-range negatives onto in-range values"""
+    not under that comparison (or wrapping arithmetic) maps out-of-range negatives onto in-range values.  The comparison
+    may be written as `d.cmp(&b)` or as `<` / `==` tests; b may be a promoted constant or a captured local"""
     n = 0
     for fn in F.real_fns():
         m = re.search(r"ToPrimitive for BigDecimalRef(<'_>)?>::to_i(64|128)::\{closure#\d+\}$", fn.name)
@@ -229,42 +230,85 @@ def min_boundary(rep, F, rule='R-TABLE'):
         except TB.Undecided as e:
             rep.undecided(rule, key, str(e), fn.where())
             continue
-        probs, cells = [], {}
+        # captured values: evaluated in the parent
+        caps = {}
+        parent = F.fns.get(re.sub(r'::\{closure#\d+\}$', '', fn.name))
+        if parent is not None:
+            try:
+                for atoms_p, out_p in TB.PathEnum(F, parent, max_paths=64).run():
+                    for sub in TB.subterms(out_p):
+                        if sub[0] == 'closure' and sub[1] == fn.name:
+                            for i_, c_ in enumerate(sub[2]):
+                                caps[i_] = c_
+            except TB.Undecided:
+                pass
+
+        def bound_value(b):
+            b = TB.strip_refs(b)
+            if b[0] == 'promoted':
+                pf = F.fns.get('%s::promoted[%d]' % (fn.name, b[1]))
+                if pf is None:
+                    return None
+                try:
+                    pp = TB.PathEnum(F, pf, max_paths=2).run()
+                    return _const_eval(pp[0][1]) if len(pp) == 1 else None
+                except TB.Undecided:
+                    return None
+            if b[0] == 'field' and TB.strip_refs(b[1]) == TB.T('param', 1) and str(b[2]).isdigit() and int(b[2]) in caps:
+                return _const_eval(caps[int(b[2])])
+            return _const_eval(b)
+
+        d = TB.T('param', 2)
+        probs, seen_rel = [], set()
+        want = {'lt': 'neg-cast', 'eq': 'min', 'gt': 'none'}
         for atoms, out in paths:
-            o = TB.strip_refs(out)
-            guard = None
+            rels = {'lt', 'eq', 'gt'}
+            bvals = set()
             for a, c in atoms:
                 a = TB.strip_refs(a)
-                if a[0] == 'discr' and a[1][0] == 'cmp' and a[1][1] == TB.T('param', 2) and c[0] == 'eq':
-                    bound = a[1][2]
-                    if bound[0] == 'promoted':
-                        pf = F.fns.get('%s::promoted[%d]' % (fn.name, bound[1]))
-                        bv = None
-                        if pf is not None:
-                            try:
-                                pp = TB.PathEnum(F, pf, max_paths=2).run()
-                                bv = _const_eval(pp[0][1]) if len(pp) == 1 else None
-                            except TB.Undecided:
-                                pass
+                truth = not (c == ('eq', 0))
+                if a[0] == 'discr' and TB.strip_refs(a[1])[0] == 'cmp' and TB.strip_refs(TB.strip_refs(a[1])[1]) == d and c[0] == 'eq':
+                    rels &= {{255: 'lt', 0: 'eq', 1: 'gt'}.get(c[1], '?')}
+                    bvals.add(bound_value(TB.strip_refs(a[1])[2]))
+                elif a[0] == 'bin' and a[1] in ('Lt', 'Le', 'Gt', 'Ge', 'Eq', 'Ne') and (TB.strip_refs(a[2]) == d or TB.strip_refs(a[3]) == d):
+                    op = a[1]
+                    if TB.strip_refs(a[3]) == d:
+                        op = {'Lt': 'Gt', 'Le': 'Ge', 'Gt': 'Lt', 'Ge': 'Le', 'Eq': 'Eq', 'Ne': 'Ne'}[op]
+                        bvals.add(bound_value(a[2]))
                     else:
-                        bv = _const_eval(bound)
-                    guard = ({255: 'Less', 0: 'Equal', 1: 'Greater'}.get(c[1]), bv)
-            casts = [x for x in TB.subterms(o) if x[0] == 'cast' and TB.strip_refs(x[1]) == TB.T('param', 2) and str(x[2]).startswith('i')]
-            if casts and not (guard and guard[0] == 'Less' and guard[1] is not None and guard[1] <= 2 ** (W - 1)):
-                probs.append('the magnitude is reinterpreted `as i%d` without d < 2^%d being established on that path (guard: %s)' % (W, W - 1, guard))
-            if guard and guard[0]:
-                cells[guard[0]] = TB.show(o)
-                if guard[1] != 2 ** (W - 1):
-                    probs.append('the boundary constant is %s, not 2^%d' % (guard[1], W - 1))
-        want = {'Less': 'Option::Some(neg(cast(arg2)))', 'Equal': 'Option::Some(%d)' % (-2 ** (W - 1)), 'Greater': 'Option::None'}
-        if not probs and cells:
-            for k, v in want.items():
-                if cells.get(k) != v:
-                    probs.append('cell d %s 2^%d must be %s; it is %s' % ({'Less': '<', 'Equal': '==', 'Greater': '>'}[k], W - 1, v, cells.get(k)))
+                        bvals.add(bound_value(a[3]))
+                    sat = {'Lt': {'lt'}, 'Le': {'lt', 'eq'}, 'Gt': {'gt'}, 'Ge': {'gt', 'eq'}, 'Eq': {'eq'}, 'Ne': {'lt', 'gt'}}[op]
+                    rels &= sat if truth else ({'lt', 'eq', 'gt'} - sat)
+            if not rels:
+                continue
+            o = TB.strip_refs(out)
+            so = TB.show(o)
+            if so == 'Option::None':
+                oc = 'none'
+            elif so == 'Option::Some(%d)' % (-2 ** (W - 1)):
+                oc = 'min'
+            elif o[0] == 'adt' and o[2] == 'Some' and o[3]:
+                inner = TB.strip_refs(o[3][0])
+                neg = None
+                if inner[0] == 'un' and inner[1] == 'Neg':
+                    neg = TB.strip_refs(inner[2])
+                elif inner[0] == 'call' and re.search(r'Neg::neg$', TB._plain(inner[1])):
+                    neg = TB.strip_refs(inner[2][0])
+                oc = 'neg-cast' if (neg is not None and neg[0] == 'cast' and TB.strip_refs(neg[1]) == d and str(neg[2]) == 'i%d' % W) else 'other:' + so[:50]
+                if oc.startswith('other') and any(x[0] == 'cast' and TB.strip_refs(x[1]) == d and str(x[2]).startswith('i') for x in TB.subterms(o)):
+                    oc = 'cast-unnegated'
+            else:
+                oc = 'other:' + so[:50]
+            if any(bv is None or bv != 2 ** (W - 1) for bv in bvals):
+                probs.append('the magnitude is compared with %s, not with 2^%d' % (sorted(bvals, key=str), W - 1))
+            for r in sorted(rels):
+                seen_rel.add(r)
+                if oc != want[r]:
+                    probs.append('for d %s 2^%d the result must be %s; this path gives %s' % ({'lt': '<', 'eq': '==', 'gt': '>'}[r], W - 1, {'neg-cast': '-(d as i%d)' % W, 'min': 'i%d::MIN' % W, 'none': 'None'}[want[r]], oc))
         if probs:
             rep.violation(rule, key, probs[0], fn.where())
-        elif not cells:
-            rep.undecided(rule, key, 'no comparison of the magnitude with the boundary recognised', fn.where())
+        elif seen_rel != {'lt', 'eq', 'gt'}:
+            rep.undecided(rule, key, 'the three cases d <, ==, > 2^%d are not all recognised (%s)' % (W - 1, sorted(seen_rel)), fn.where())
         else:
             rep.ok(rule, key, 'd < 2^%d -> -(d as i%d); d == 2^%d -> i%d::MIN; d > 2^%d -> None' % (W - 1, W, W - 1, W, W - 1), fn.where())
     return n
